@@ -8,7 +8,7 @@ is decided inside Coq by the proved checker on every run.
 On an alarm (and always in the thorough tier) harness/thr.c runs N threads of
 deterministic codec scripts under ThreadSanitizer and compares every thread's
 output with its solo run."""
-import sys, os
+import sys, os, re
 sys.path.insert(0, os.path.join(os.path.dirname(os.path.abspath(__file__)), "..", "lib"))
 sys.path.insert(0, os.path.join(os.path.dirname(os.path.abspath(__file__)), "..", "harness"))
 from vlib import *
@@ -63,6 +63,11 @@ def main(tier):
                                                "log_tail": (out if not ok else plog)[-2000:], "grep_gate": gate}, no_input=True)
     # 2. translator: objects from the working tree -> facts -> Gen_Statics.v
     try:
+        st_fail = statics.selftest(os.path.join(scr, "c19_selftest"))
+        run.count("translator_selftest_checks", len(statics.SELFTEST_EXPECT) + 13)
+        if st_fail:
+            run.violation("translator:selftest", {"what": "harness/statics.py misreads this toolchain's output on harness/statics_selftest.c "
+                                                          "(ground-truth accesses)", "failures": st_fail}, no_input=True)
         objs, slots = statics.build_objects(REPO, os.path.join(scr, "c19_obj"), ncpu=NCPU)
         res = statics.analyse(objs, slots, os.path.join(HARNESS, "statics_allow.json"))
     except (statics.StaticsError, BuildError) as e:
@@ -125,12 +130,45 @@ def main(tier):
                       {"what": "python closure and Coq checker disagree about the generated obligation", "python_offending": bad[:5],
                        "coqc_rc": rc, "coqc_tail": cout[-1500:]}, no_input=True)
 
+    # 2b. thorough: the same obligation for other code shapes of the same sources (-O0, -O2, -Os), and coqchk
+    variants = {}
+    coqchk_axioms = None
+    if tier == "thorough":
+        for opt in ("-O0", "-O2", "-Os"):
+            try:
+                vobjs, vslots = statics.build_objects(REPO, os.path.join(scr, "c19_obj" + opt), ncpu=NCPU, extra_cflags=[opt])
+                vres = statics.analyse(vobjs, vslots, os.path.join(HARNESS, "statics_allow.json"))
+                vbad, _ = statics.offending(vres)
+                vbad = [b for b in vbad if (b["file"], b["symbol"]) not in known]
+                vdir = os.path.join(scr, "gen" + opt)
+                os.makedirs(vdir, exist_ok=True)
+                vgen = os.path.join(vdir, "Gen_Statics.v")
+                vst = statics.emit_coq(vres, vgen, known_ids=[b["id"] for b in statics.offending(vres)[0] if (b["file"], b["symbol"]) in known])
+                vrc, vout = sh(["timeout", "300", "coqc", "-Q", COQ, "A1", vgen], cwd=vdir, timeout=400)
+                vok = (vrc == 0 and vout.count("Closed under the global context") == 2 and "Axioms:" not in vout)
+                variants[opt] = {"discharged": vok, "graph": vst, "offending": ["%s:%s" % (b["file"], b["symbol"]) for b in vbad]}
+                nobl += 1
+                ndone += 1 if vok else 0
+                run.count("variant%s:%s" % (opt, "ok" if vok else "alarm"))
+                if not vok or vbad:
+                    for b in (vbad or [{"file": "?", "symbol": "?", "reason": "coqc failed", "path": [], "witnesses": []}]):
+                        run.violation("translator:Gen_Statics%s(%s:%s)" % (opt, b["file"], b["symbol"]),
+                                      {"what": "obligation fails for the %s build of the same sources" % opt, "object_file": b["file"], "symbol": b["symbol"],
+                                       "reason": b["reason"], "call_path": b["path"], "witness_instructions": b["witnesses"], "coqc_tail": vout[-600:]}, no_input=True)
+            except (statics.StaticsError, BuildError) as e:
+                run.violation("build:statics" + opt, {"what": str(e)[-1500:]}, no_input=True)
+        rc2, o2 = sh("timeout 900 coqchk -silent -o -Q %s A1 A1.Props.Properties_C19" % COQ, timeout=1000)
+        m = re.search(r"\* Axioms:\s*(.*?)\n\s*\n", o2, flags=re.S)
+        coqchk_axioms = (m.group(1).strip() if m else "coqchk failed rc=%d" % rc2)
+        if rc2 != 0:
+            run.violation("proof:coqchk", {"what": "coqchk rejects the compiled development", "tail": o2[-1500:]}, no_input=True)
+
     # 3. on an alarm: search for a concrete demonstration; thorough: run it anyway
     thr_result = None
     if bad or not gen_ok or tier == "thorough":
         try:
             exe = build_thr(scr)
-            rounds = [(run.seed, 8, 400)] if tier == "quick" else [(run.seed + k, 8 + 4 * (k % 2), 3000) for k in range(6)]
+            rounds = [(run.seed, 8, 400)] if tier == "quick" else [(run.seed + k, 4 + 4 * (k % 4), 8000) for k in range(12)]
             if bad or not gen_ok:
                 rounds = rounds + [(run.seed + 100 + k, 16, 1500) for k in range(3)]
             for (sd, nthr, nops) in rounds:
@@ -175,6 +213,7 @@ def main(tier):
                    "rule": "one case per object in a run-time writable section of the %d skeleton objects; non-trivial = connected to a codec "
                            "entry point in the relocation graph; for each the checker decides stored / address-taken / allowlisted" % res["nobjs"],
                    "graph": stats, "generated_obligation_discharged": gen_ok, "theorems": names,
+                   "other_code_shapes": variants, "coqchk_axioms": coqchk_axioms,
                    "stale_allowlist_entries": ["%s:%s" % (e["file"], e["symbol"]) for e in stale],
                    "entry_exclusions": sorted(set(w for _, w in res["excluded_entries"])),
                    "notes": run.notes},
